@@ -293,3 +293,46 @@ M('c13-unfold-in-place', 'C13', [(FU, "    new_rules = copy.deepcopy(self.rules)
 T('c13-twin-sorted-predicates', 'C13', [(FU, "    for p in self.predicates:\n      self.ArgsOf(p)\n\n  def GetConstantFunction", "    for p in sorted(self.predicates):\n      self.ArgsOf(p)\n\n  def GetConstantFunction")])
 T('c13-twin-set-loop-benign', 'C13', [(U, "    self.CheckDistinctConsistency()\n", "    self.CheckDistinctConsistency()\n    at_predicates = set()\n    for p in self.defined_predicates:\n      if p.startswith('@'):\n        at_predicates.add(p)\n    del at_predicates\n")])
 T('c13-twin-sorted-list', 'C13', [(U, "    self.dollar_params = list(self.ExtractDollarParams(rules))", "    self.dollar_params = sorted(self.ExtractDollarParams(rules))")])
+
+# ---------------------------------------------------------------- C16
+M('c16-no-swap', 'C16', [(RA, "  if Rank(concrete_a) > Rank(concrete_b):\n    a, b = b, a\n    concrete_a, concrete_b = concrete_b, concrete_a\n", "")], 'C16-R1')
+M('c16-half-swap', 'C16', [(RA, "    a, b = b, a\n    concrete_a, concrete_b = concrete_b, concrete_a\n", "    concrete_a, concrete_b = concrete_b, concrete_a\n")], 'C16-R1')
+M('c16-sequential-num', 'C16', [(RA, "    if concrete_b in ('Str', 'Sequential') or isinstance(concrete_b, list):", "    if concrete_b in ('Str', 'Sequential', 'Num') or isinstance(concrete_b, list):")], 'C16-R1')
+M('c16-closed-closed-always', 'C16', [(RA, "      if set(concrete_a) == set(concrete_b):\n        UnifyFriendlyRecords(a, b, ClosedRecord)\n        return", "      if True:\n        UnifyFriendlyRecords(a, b, ClosedRecord)\n        return")], 'C16-R1')
+M('c16-bad-not-absorbing', 'C16', [(RA, "  if isinstance(concrete_a, BadType) or isinstance(concrete_b, BadType):\n    return  # Do nothing.\n", "  if isinstance(concrete_a, BadType):\n    return  # Do nothing.\n")], 'C16-R1')
+M('c16-singular-sequential', 'C16', [(RA, "      a.target = b\n      b.target = 'Str'\n      return", "      a.target = b\n      return")], 'C16-R1')
+M('c16-rank-duplicate', 'C16', [(RA, "  if x == 'Bool':\n    return 5", "  if x == 'Bool':\n    return 4")], 'C16-R1')
+M('c16-ground-no-clash', 'C16', [(RA, "    if concrete_a == concrete_b:\n      return  # It's all fine.", "    if concrete_a == concrete_b or concrete_b == 'Time':\n      return  # It's all fine.")], 'C16-R1')
+M('c16-merge-one-side', 'C16', [(RA, "  for f in set(concrete_a) | set(concrete_b):", "  for f in set(concrete_a):")], 'C16-R2')
+M('c16-identity-before-compress', 'C16', [(RA, """  while a.WeMustGoDeeper():
+    a = a.target
+  while b.WeMustGoDeeper():
+    b = b.target
+  if original_a != a:
+    original_a.target = a
+  if original_b != b:
+    original_b.target = b
+  if id(a) == id(b):
+    return""", """  if id(a) == id(b):
+    return
+  while a.WeMustGoDeeper():
+    a = a.target
+  while b.WeMustGoDeeper():
+    b = b.target
+  if original_a != a:
+    original_a.target = a
+  if original_b != b:
+    original_b.target = b""")], 'C16-R3')
+M('c16-open-closed-no-subset', 'C16', [(RA, "      if set(concrete_a) <= set(concrete_b):\n        UnifyFriendlyRecords(a, b, ClosedRecord)\n        return", "      if True:\n        UnifyFriendlyRecords(a, b, ClosedRecord)\n        return")], 'C16-R1')
+T('c16-twin-branch-order', 'C16', [(RA, """  if concrete_a == 'Any':
+    a.target = b
+    return
+  
+  if concrete_a == 'Singular':""", """  if concrete_a == 'Any':
+    a.target = b
+    return
+  if concrete_a in ('Num', 'Str', 'Bool', 'Time') and concrete_a == concrete_b:
+    return
+
+  if concrete_a == 'Singular':""")])
+T('c16-twin-rank-renumber', 'C16', [(RA, "  if isinstance(x, ClosedRecord):\n    return 9", "  if isinstance(x, ClosedRecord):\n    return 19")])
